@@ -109,7 +109,7 @@ class C06(PropBase):
                 continue
             t, vals = rng.choice(pool)
             if "twin" in sw and rng.random() < 0.3:
-                tw = hist.type_twins(rng, t)
+                tw = hist.order_preserving_twins(rng, t)
                 if tw:
                     t = rng.choice(tw)
             v = rng.choice(vals)
